@@ -524,7 +524,89 @@ def r06_8(ctx):
     return rr
 
 
-RULES = [r06_1, r06_2, r06_3, r06_4, r06_5, r06_6, r06_7, r06_8]
+def r06_9(ctx):
+    rr = RuleResult(
+        "R06.9", "COVER",
+        "a hand-built task graph keyed by (prefix + tokenize(...), i) names its tasks by everything the tasks are built from: every value that enters a task whole is, or is computed only from, what the token was given",
+        min_instances=2,
+    )
+    repo = ctx.repo
+    tok_names = ("tokenize", "_tokenize_deterministic")
+    for m in repo.units:
+        if ".tests" in m.name:
+            continue
+        for f in m.functions.values():
+            if f.parent is not None:
+                continue
+            defs = None
+            for d in ast.walk(f.node):
+                if isinstance(d, ast.Dict):
+                    entries = [(k, v) for k, v in zip(d.keys, d.values) if k is not None]
+                elif isinstance(d, ast.DictComp):
+                    entries = [(d.key, d.value)]
+                else:
+                    continue
+                for k, v in entries:
+                    if not (isinstance(k, ast.Tuple) and k.elts and isinstance(k.elts[0], ast.Name)):
+                        continue
+                    defs = defs or Defs(f.node)
+                    nm = k.elts[0].id
+                    exprs, seen, toks = list(defs.defs.get(nm, [])), {nm}, []
+                    for _ in range(3):
+                        nxt = []
+                        for e in exprs:
+                            toks += [c for c in ast.walk(e) if isinstance(c, ast.Call) and (dotted(c.func) or "").rsplit(".", 1)[-1] in tok_names]
+                            for x in ast.walk(e):
+                                if isinstance(x, ast.Name) and x.id not in seen and x.id in defs.defs:
+                                    seen.add(x.id)
+                                    nxt += defs.defs[x.id]
+                        exprs = nxt
+                    if not toks:
+                        continue
+                    covered = set()
+                    for t in toks:
+                        for a in list(t.args) + [kw.value for kw in t.keywords]:
+                            covered |= _whole_names(a)
+                    # a local bound once to a tuple / list / dict display stands for its elements (tokenize(*ingredients))
+                    for _ in range(3):
+                        for nm_ in list(covered):
+                            v_ = defs.plain_single_def(nm_)
+                            if isinstance(v_, (ast.Tuple, ast.List, ast.Dict)):
+                                covered |= _whole_names(v_)
+
+                    # a task ingredient is fine when it is what the token was given, or a local computed only from such values;
+                    # a parameter the token was not given is not (whatever it may also be rebound to on some path)
+                    lacking = set()
+
+                    def check(name, depth, trail):
+                        if name in covered or name in trail:
+                            return
+                        if name in defs.params:
+                            lacking.add(name)
+                            return
+                        ds = defs.defs.get(name)
+                        if not ds or depth == 0:
+                            return  # a module-level function / constant / import
+                        for e in ds:
+                            for x in _whole_names(e):
+                                check(x, depth - 1, trail | {name})
+
+                    used = {x for x in _whole_names(v)}
+                    for x in sorted(used):
+                        check(x, 5, frozenset())
+                    c = f"{f.construct}::({nm}, ...) -> {unparse(v)[:60]}"
+                    rr.inst(c, token_given=sorted(covered), task_uses=sorted(used))
+                    if lacking:
+                        ctx.finding(
+                            rr, c,
+                            f"the tasks stored under ({nm}, i) use {sorted(lacking)} of {f.qualname}, which the token in {nm} was not given ({sorted(covered)}): two calls that differ only there build different tasks under the same keys, "
+                            "and de-duplication by name (one graph holding both, dask.compute of several collections) silently keeps one of them",
+                            func=f, node=d,
+                        )
+    return rr
+
+
+RULES = [r06_1, r06_2, r06_3, r06_4, r06_5, r06_6, r06_7, r06_8, r06_9]
 
 from .upstream import upstream_facts  # noqa: E402
 
